@@ -51,6 +51,8 @@ def run(ctx):
             path = "m/48%s/%d%s/%d%s/2%s" % (note, 0 if net == "mainnet" else 1, note, rng.choice([0, 1, 7]) if not twin else 0, note, note)
             if twin:
                 path = path.replace("h", "'")
+            if k == n - 1 and wi == 1:
+                path = "m"                       # a cosigner who hands over his master xpub: the key origin is just the fingerprint
             node = root.traverse(path)
             ver = bytes.fromhex(rng.choice(PUBVER[fam]) if (wi + k) % 3 == 0 else PUBVER[fam][0])
             xpub_given = node.xpub(version=ver)
